@@ -42,6 +42,9 @@ fn dispatch(req: &Req) -> R<String> {
 		"zstat" => stat::zstat(req),
 		"zfind" => stat::zfind(req),
 		"seedfind" => stat::seedfind(req),
+		"bigfill" => stat::bigfill(req),
+		"bigmulti" => stat::bigmulti(req),
+		"bigsingle" => stat::bigsingle(req),
 		"chacha" => chacha::chacha(req),
 		"slpblock" => chacha::slpblock(req),
 		"serde" => serde_rt::serde(req),
